@@ -41,6 +41,12 @@ extern "C"
         DETSCHED_STICKY = 1, /* keep the thread that ran last while it is
                                 enabled, else the lowest enabled tid (a
                                 continuation without pre-emptions) */
+        DETSCHED_FAIR = 2,   /* like STICKY, but a thread that parked at a
+                                voluntary yield (clock_sleep_ms, detsched_yield)
+                                hands over to the next enabled tid in cyclic
+                                order: still no pre-emption in the sense of
+                                pre-emption bounding, and polling / free-running
+                                loops cannot starve the other threads */
     };
 
     /* kinds of pending operation == kinds of event */
@@ -87,6 +93,9 @@ extern "C"
         const char* label;     /* label of detsched_yield, else ""                      */
         uint64_t enabled_mask; /* bit t set iff thread t was enabled at this decision   */
         int prev;              /* thread that ran the previous step (-1 at step 0)      */
+        int prev_kind;         /* pending operation prev is parked at now, -1 if it
+                                  finished (DS_SLEEP / DS_YIELD: switching away from
+                                  it is not a pre-emption)                              */
         int requested;         /* tid the explicit schedule asked for, -1 if none       */
         int deviated;          /* 1 iff requested was not enabled and another was taken */
         uint64_t vtime_ns;     /* virtual time                                          */
@@ -121,7 +130,7 @@ extern "C"
         FILE* trace;           /* if non-NULL: one line per decision
                                   "DS <step> <tid> <kind> <obj>[ <label>]"; in DFS
                                   mode additionally "DS-DECISION step=.. prev=..
-                                  chosen=.. enabled=a,b,c"                          */
+                                  prevkind=.. chosen=.. enabled=a,b,c"                          */
     };
 
     /* Fill *cfg with defaults (EXPLICIT, empty schedule, LOWEST). */
